@@ -167,6 +167,10 @@ def parseSteps (st : String) : List Op :=
   if nth f 0 == "X" then
     [.umount (pathName (nth f 1)),
      .mount (parseBk (nth f 3) (nth f 5) (nth f 6)) (pathName (nth f 2)) (parseMap (nth f 4))]
+  else if nth f 0 == "Z" then
+    -- `Z:<init bits>:<mount fields>`: INIT, then the mount
+    [.init (natD (nth f 1)),
+     .mount (parseBk (nth f 3) (nth f 5) (nth f 6)) (pathName (nth f 2)) (parseMap (nth f 4))]
   else if nth f 0 == "Y" then
     -- `Y:<umount path>:<uid>:<gid>:<pseudo parent>:<hex name>`: umount, then the LOOKUP
     (.umount (pathName (nth f 1))) ::
